@@ -1,6 +1,8 @@
 import VlsModel.Model.NodeReq
 import VlsModel.Props.C10
 import VlsModel.Props.C02
+import VlsModel.Model.PersistConv
+import VlsModel.Gen.PersistConv
 /-
 C11 — Every acknowledged state change is already durable.
 
@@ -46,7 +48,8 @@ theorem C11_refine_step (c : Cfg) (s s' : St) (op : Op) (r : Res)
   unfold Durable view at *
   simp only [View.mk.injEq] at hd
   obtain ⟨ha, hi, hh, hs, hf⟩ := hd
-  cases op <;> simp only [step, allowlistOp, keysend, newChannel, forgetChannel, restart, heartbeat, addBlocks, removeBlock] at h
+  cases op <;> simp only [step, allowlistOp, keysend, newChannel, forgetChannel, signInvoice, restart, heartbeat, addBlocks, removeBlock,
+    Core.updateNode, Core.updateAllowlist] at h
   all_goals (repeat' split at h)
   all_goals first
     | (cases h <;> simp_all)
@@ -82,6 +85,14 @@ theorem C11_restart_equiv (c : Cfg) (ops : List Op) (s sf : St) (rs : List Res)
     view (restart sf).1.mem = view sf.mem := by
   have := C11_refine_run c ops s sf rs hd h
   simpa [restart, Durable] using this
+
+/-- Issued invoices are not one of the fields the property lists, and `sign_bolt11_invoice` does not persist:
+    right after it the store does NOT determine them (first conjunct: a concrete history) — they become durable
+    with the next request that rewrites the node entry (second conjunct, for every state). -/
+theorem C11_issued_not_durable_until_update_node :
+    (∃ s', step C10.cfg0 C10.s0 (.sinv 7 1000) = some (s', .ok) ∧ s'.mem.issued = [(7, 1000)] ∧ s'.disk.issued = []) ∧
+    (∀ d m : Core, (d.updateNode m).issued = m.issued) :=
+  ⟨⟨_, rfl, rfl, rfl⟩, fun _ _ => rfl⟩
 
 /-- The refinement really depends on the persist calls: the model of `forget_channel` *before* fix
     2cdac39 (tracker entry not rewritten) breaks it — the recorded defect F12. -/
@@ -227,11 +238,208 @@ theorem C11_gen_shape_durable {α : Type} (fn : Gen.ReqShape.Fn) (hf : fn ∉ ex
   revert hf hx
   cases fn <;> cases x <;> decide +kernel
 
+/-! #### Callees inlined, handler arms, conditional persist calls
+
+(see `Props/C10.lean` for `evsFull` / `armEvs`.)  `condPersistFn` / `condPersistArm` list the persist calls that
+sit inside a block which does not enclose an earlier mutation they cover — control can pass the mutation and
+leave the function without passing the call — unless an unconditional call follows. -/
+
+/-- **C11_gen_shape_persist_full** (generated obligation): with callees inlined the same three helpers, and only
+    they, leave a persisted component dirty -/
+theorem C11_gen_shape_persist_full :
+    (Gen.ReqShape.Fn.all.filterMap (fun f =>
+      if ReqShape.leftDirty (Gen.ReqShape.evsFull f) = [] then none
+      else some (f, ReqShape.leftDirty (Gen.ReqShape.evsFull f)))) = expectedDirty := by
+  decide +kernel
+
+/-- **C11_gen_arm_persist** (generated obligation): no state-changing arm of the protocol handler leaves a
+    persisted component dirty — in particular the `AddBlock` / `RemoveBlock` arms, which are the only place where
+    an accepted block is written (`update_tracker`), and the composite `ValidateCommitmentTx*` arms. -/
+theorem C11_gen_arm_persist : ∀ a ∈ Gen.ReqShape.Arm.all, ReqShape.leftDirty (Gen.ReqShape.armEvs a) = [] := by
+  decide +kernel
+
+/-- … so an accepted run of any arm, started with store = memory, ends with store = memory on every persisted
+    component -/
+theorem C11_gen_arm_durable {α : Type} (a : Gen.ReqShape.Arm)
+    (f : Nat → α → α) (s : Shape.DState α) (h : ∀ x, s.disk x = s.mem x)
+    (x : ReqShape.Comp) (hx : (ReqShape.persistedBy x).isSome = true) :
+    (Shape.run f 0 (Gen.ReqShape.armEvs a) s).disk x = (Shape.run f 0 (Gen.ReqShape.armEvs a) s).mem x := by
+  apply C11_shape_durable _ _ _ h
+  revert hx
+  cases a <;> cases x <;> decide +kernel
+
+/-- **C11_gen_cond_persist** (generated obligation): the conditional persist calls of the current sources are
+    exactly three, each guarded by a flag that is set in the very branch that mutates:
+    `get_heartbeat` (`if pruned1 || pruned2 || pruned3 { update_node }`, the flags are the results of the three
+    pruning calls), `forget_channel` (`if ready_found { update_tracker }`, set next to `chan.forget()?`; fix F12),
+    `prune_channels` (`if tracker_modified { update_tracker }`, set next to `remove_listener`).  No handler arm
+    has one: the tracker write of `AddBlock` / `RemoveBlock` is unconditional. -/
+theorem C11_gen_cond_persist :
+    Gen.ReqShape.condPersistFn =
+      [(.get_heartbeat, [(.node, .node)]), (.forget_channel, [(.tracker, .monitor)]), (.prune_channels, [(.tracker, .tracker)])] ∧
+    Gen.ReqShape.condPersistArm = [] := by decide
+
 /-- non-vacuity: the F12 shape (`forget_channel` without the tracker write) leaves the monitor dirty;
     with the write nothing is left dirty -/
 example :
     ReqShape.leftDirty [.mutate .monitor true, .mutate .node false, .persist .node, .persist .chan] = [.monitor] ∧
     ReqShape.leftDirty [.mutate .monitor true, .mutate .node false, .persist .node, .persist .chan, .persist .tracker] = [] := by
   decide
+
+
+/-! ### Tie to the source: field census of the persist conversions (translate/x_persistconv.py)
+
+The refinement above says *when* the store is written.  *What* a write puts there — and what a restart reads
+back — are the conversions of `vls-persist/src/model.rs` / `kvv.rs` and the restore path of `node.rs`.
+`Gen/PersistConv.lean` lists, re-extracted from the sources on every run, for every persisted entry the
+in-memory fields each persisted field is computed from (`save`) and for every field of the restored object the
+persisted fields it is computed from (`load`).  The theorems below state that every field the durable view of
+the property names goes out and comes back (`roundTrips`), and list exactly the fields that do not, so that a
+new in-memory field that is not persisted, a dropped field of an entry, a `serde(skip)`, or a restore path
+that stops reading a field reaches a proof obligation. -/
+
+section Census
+open VlsModel.PersistConv VlsModel.Gen.PersistConv
+
+/-- a field that round-trips is recovered from what was written: through the most informative conversions
+    with the extracted dependencies, the restored field is exactly the value that was in memory -/
+theorem C11_census_roundtrip {M E α : Type} [DecidableEq M] (c : Conv M E) (f : M)
+    (h : c.roundTrips f = true) (m : M → α) : c.restore (c.persist m) f = [[m f]] := by
+  unfold Conv.roundTrips at h
+  unfold Conv.restore Conv.persist
+  split at h
+  · rename_i e he
+    have h' : c.save e = [f] := by simpa using h
+    simp [he, h']
+  · cases h
+
+/-- a field that no persisted field is computed from cannot survive a restart: two memories that differ
+    only there are written to the same entry (so everything the property calls durable must be in the census) -/
+theorem C11_census_unsaved_lost {M E α : Type} (c : Conv M E) (f : M)
+    (h : ∀ e, f ∉ c.save e) (m m' : M → α) (hm : ∀ g, g ≠ f → m g = m' g) :
+    c.persist m = c.persist m' := by
+  funext e
+  unfold Conv.persist
+  apply List.map_congr_left
+  intro g hg
+  exact hm g (fun hgf => h e (hgf ▸ hg))
+
+def nodeConv : Conv NodeStateF NodeEntryF := ⟨nodeSave, nodeLoad⟩
+def channelConv : Conv ChannelF ChannelEntryF := ⟨channelSave, channelLoad⟩
+def stubConv : Conv StubF ChannelEntryF := ⟨stubSave, stubLoad⟩
+def trackerConv : Conv TrackerF TrackerEntryF := ⟨trackerSave, trackerLoad⟩
+
+/-- the node-level fields the property names: "the same allowlist, approved invoices and channel-id
+    high-water mark" -/
+def durableNode : List NodeStateF := [.allowlist, .invoices, .dbid_high_water_mark]
+
+/-- **C11_gen_census_node** (generated obligation): each of them is written to its entry
+    (`NodeStateEntry` / the allowlist entry) and read back into the same field by `get_nodes` →
+    `NodeState::restore` → `Node::new_full`. -/
+theorem C11_gen_census_node : ∀ f ∈ durableNode, nodeConv.roundTrips f = true := by decide
+
+/-- … and these are all the fields of `NodeState` that do not come back: the excess accumulator (restored as
+    the literal 0) and two log-only strings.  (`payments` comes back as its preimages only — the ledger is
+    re-derived from the channels by `restore_payments`; issued invoices and both velocity controls round-trip,
+    see `Props/C12.C12_gen_census_velocity`.) -/
+theorem C11_gen_census_node_lost :
+    NodeStateF.all.filter (fun f => !nodeConv.roundTrips f) = [.excess_amount, .log_prefix, .last_summary] := by
+  decide
+
+/-- nothing is persisted that is not restored: every field of the two node entries is read by the restore path -/
+theorem C11_gen_census_node_entry_read :
+    ∀ e ∈ NodeEntryF.all, NodeStateF.all.any (fun f => (nodeLoad f).contains e) = true := by decide
+
+/-- the per-channel fields the property names: "the same commitment and revocation counters, commitment
+    contents, counterparty points and secrets and closed flag" -/
+def durableEnforcement : List EnforcementF :=
+  [.next_holder_commit_num, .next_counterparty_commit_num, .next_counterparty_revoke_num,
+   .current_holder_commit_info, .next_holder_commit_info, .current_counterparty_signatures,
+   .current_counterparty_commit_info, .previous_counterparty_commit_info,
+   .current_counterparty_point, .previous_counterparty_point, .counterparty_secrets, .channel_closed]
+
+/-- **C11_gen_census_enforcement** (generated obligation): `EnforcementState` derives its serialized form
+    and no field is skipped — in particular none of the fields the property names … -/
+theorem C11_gen_census_enforcement :
+    (∀ f, enforcementSerialized f = true) ∧ (∀ f ∈ durableEnforcement, enforcementSerialized f = true) := by
+  constructor
+  · intro f; cases f <;> rfl
+  · decide
+
+/-- … and the only field of `EnforcementState` the property does not name is the initial holder value -/
+theorem C11_gen_census_enforcement_rest :
+    EnforcementF.all.filter (fun f => !durableEnforcement.contains f) = [.initial_holder_value] := by decide
+
+/-- **C11_gen_census_channel** (generated obligation): `Channel::persist` → `update_channel` writes the whole
+    enforcement state, the setup and the permanent id, and `new_from_persistence` builds the restored `Channel`
+    from them; the remaining fields are rebuilt (back-pointer, context, keys from seed + id + channel value, the
+    initial id from the store key, the monitor from the tracker entry). -/
+theorem C11_gen_census_channel :
+    ChannelF.all.filter (fun f => channelConv.roundTrips f) = [.enforcement_state, .setup, .id_] := by decide
+
+/-- a stub's birth height (which decides when the heartbeat prunes it) round-trips too -/
+theorem C11_gen_census_stub : StubF.all.filter (fun f => stubConv.roundTrips f) = [.blockheight] := by decide
+
+/-- the chain-tracking fields the property names: "the same chain tip and channel monitors" (the monitors'
+    state is the listeners' state inside the tracker entry) -/
+def durableTracker : List TrackerF := [.tip, .height, .headers, .listeners]
+
+/-- **C11_gen_census_tracker** (generated obligation) -/
+theorem C11_gen_census_tracker :
+    (∀ f ∈ durableTracker, trackerConv.roundTrips f = true) ∧
+    TrackerF.all.filter (fun f => trackerConv.roundTrips f) = [.headers, .tip, .height, .network, .listeners] := by
+  decide
+
+/-! #### The node-request model writes what the source writes
+
+`Model/NodeReq.lean` abstracts `update_node` as `Core.updateNode` and `update_node_allowlist` as
+`Core.updateAllowlist`.  Which of the model's fields each of them copies is pinned to the census. -/
+
+inductive CoreF | allow | invoices | issued | vc | hwm | stubs | forgetFlag
+  deriving DecidableEq, Repr
+
+def CoreF.all : List CoreF := [.allow, .invoices, .issued, .vc, .hwm, .stubs, .forgetFlag]
+
+/-- the `NodeState` field a field of the model's `Core` stands for (`none`: the channel entries / the tracker
+    entry, written by `new_channel` / `delete_channel` / `update_tracker`) -/
+def coreField : CoreF → Option NodeStateF
+  | .allow => some .allowlist
+  | .invoices => some .invoices
+  | .issued => some .issued_invoices
+  | .vc => some .velocity_control
+  | .hwm => some .dbid_high_water_mark
+  | .stubs => none
+  | .forgetFlag => none
+
+/-- what the model's two node-level persist calls do, field by field -/
+theorem updateNode_spec (d m : Core) :
+    (d.updateNode m).invoices = m.invoices ∧ (d.updateNode m).issued = m.issued ∧ (d.updateNode m).vc = m.vc ∧
+    (d.updateNode m).hwm = m.hwm ∧
+    (d.updateNode m).allow = d.allow ∧ (d.updateNode m).stubs = d.stubs ∧ (d.updateNode m).forgetFlag = d.forgetFlag :=
+  ⟨rfl, rfl, rfl, rfl, rfl, rfl, rfl⟩
+
+theorem updateAllowlist_spec (d m : Core) :
+    (d.updateAllowlist m).allow = m.allow ∧ (d.updateAllowlist m).invoices = d.invoices ∧ (d.updateAllowlist m).vc = d.vc ∧
+    (d.updateAllowlist m).hwm = d.hwm ∧ (d.updateAllowlist m).stubs = d.stubs ∧ (d.updateAllowlist m).forgetFlag = d.forgetFlag ∧
+    (d.updateAllowlist m).issued = d.issued :=
+  ⟨rfl, rfl, rfl, rfl, rfl, rfl, rfl⟩
+
+/-- **C11_gen_model_update_node** (generated obligation): the model fields copied by `Core.updateNode`
+    (`updateNode_spec`: invoices, issued invoices, vc, hwm) are exactly the modelled fields that the source's `NodeStateEntry`
+    is computed from, and `Core.updateAllowlist` copies exactly the one kept in the allowlist entry. -/
+theorem C11_gen_model_update_node :
+    CoreF.all.filter (fun x => match coreField x with
+      | some f => NodeEntryF.all.any (fun e => e != .allowlist_item && (nodeSave e).contains f)
+      | none => false) = [.invoices, .issued, .vc, .hwm] ∧
+    CoreF.all.filter (fun x => match coreField x with
+      | some f => (nodeSave .allowlist_item).contains f
+      | none => false) = [.allow] := by decide
+
+/-- non-vacuity: a field that round-trips, one that is written but comes back as a projection, one that is
+    not written at all -/
+example : nodeConv.roundTrips .invoices = true ∧ nodeConv.reaches .payments = true ∧
+    nodeConv.unsaved NodeEntryF.all .excess_amount = true ∧ nodeConv.roundTrips .excess_amount = false := by decide
+
+end Census
 
 end VlsModel.Props.C11
